@@ -10,6 +10,7 @@
     heap OP*                        -> per op `RES;MSG;…;MSG` (result, then every object of the heap)
          OP: n:U:P NewMessage | z:U:P &Message{UUID,Payload} | c:I Copy | a:I shallow struct copy (shares the map)
              s:I:K:V Metadata.Set | g:I:K Metadata.Get | e:I:J Equals | u:I:U set UUID | p:I:P set Payload
+             w:I the message unwrap(wrap("t", m_I)) returns (a decoded message: nil metadata stays nil)
          RES: + created | cXY copied (copy.Equals(orig), orig.Equals(copy)) | . done | P panic | v<hex> | t | f
     env DEST MSG                    -> ok E:<dest>/<uuid>/<payload>/<meta> W:<wrapper metadata> U:<dest> <MSG> | err:wrap
     jenv DEST MSG                   -> hex of the JSON text of the envelope (stretch: Lean model of encoding/json) | err:wrap
@@ -95,6 +96,7 @@ def opOf (s : String) : Option Op :=
   | ["e", i, j] => do pure (.equals (← i.toNat?) (← j.toNat?))
   | ["u", i, u] => do pure (.setUuid (← i.toNat?) (← strOfHex u))
   | ["p", i, p] => do pure (.setPayload (← i.toNat?) (← payloadOf p))
+  | ["w", i] => do pure (.rewrap (← i.toNat?))
   | _ => none
 
 def resTok : Res → String
@@ -128,23 +130,34 @@ def heapMonitor (ops : List Op) (obs : List (String × List Msg)) : String := Id
   let mut cls : Array Nat := #[]
   let mut prev : Array Msg := #[]
   let mut fresh := 0
+  -- which objects are results of `Copy()` (or share the map of one): the property promises them a map of their own
+  let mut isCopy : Array Bool := #[]
   for (op, (res, dump)) in ops.zip obs do
     let cur := dump.toArray
-    -- (a `P` result is a write to a nil map; whether that panics is not a claim of this property)
     match op with
     | .new _ _ | .lit _ _ =>
-      cls := cls.push fresh; fresh := fresh + 1
+      cls := cls.push fresh; fresh := fresh + 1; isCopy := isCopy.push false
+    | .rewrap i =>
+      cls := cls.push fresh; fresh := fresh + 1; isCopy := isCopy.push false
+      -- through the forwarder envelope and back: "identity for … UUID, payload, metadata"
+      match cur[prev.size]?, cur[i]? with
+      | some c, some o => if !coincide c o then return "violated:envelope_round_trip_message"
+      | _, _ => return "bad-op"
     | .alias i =>
-      cls := cls.push (cls.getD i fresh); fresh := fresh + 1
+      cls := cls.push (cls.getD i fresh); fresh := fresh + 1; isCopy := isCopy.push (isCopy.getD i false)
     | .copy i =>
-      cls := cls.push fresh; fresh := fresh + 1
+      cls := cls.push fresh; fresh := fresh + 1; isCopy := isCopy.push true
       -- "Copy() yields a message that Equals the original"
       if res != "ctt" then return "violated:copy_equals"
       match cur[prev.size]?, cur[i]? with
       | some c, some o => if !coincide c o then return "violated:copy_equals"
       | _, _ => return "bad-op"
     | .set i _ _ =>
-      -- "… and owns its metadata": a write through one object is invisible through every object that is not
+      -- "… and owns its metadata": a copy has a map of its own to write to, whatever the original looked like
+      -- (nil Metadata included): a write through a copy must not panic.  (Whether a write through any *other*
+      -- object with nil Metadata panics is Go's business, not a claim of this property.)
+      if res == "P" && isCopy.getD i false then return "violated:copy_owns_metadata_nil_original"
+      -- a write through one object is invisible through every object that is not
       -- a declared alias of it – in particular through its copies and through what it was copied from
       for x in [0:prev.size] do
         if cls.getD x 0 != cls.getD i 0 then
